@@ -154,7 +154,7 @@ func NewEngine(prog *ssa.Program, intMode bool, bigW int) (*Engine, error) {
 		globals: map[*ssa.Global]*Value{}, pkgInit: map[*ssa.Package]int{},
 		metas: map[*ssa.Function]*fnMeta{}, consts: map[*ssa.Const]Value{},
 		side: map[*Value]Value{}, Directives: map[string]Directive{},
-		StepLimit: 50_000_000, FeasTO: 10000, OblTO: 20000, PermuteMax: 3, ConcCap: 64,
+		StepLimit: 20_000_000, FeasTO: 10000, OblTO: 20000, PermuteMax: 3, ConcCap: 64,
 		MaxPaths: 2_000_000, MaxViolationsPerLabel: 1,
 		FnEntered: map[string]int{}, ReachHit: map[string]int{}, Bounds: map[string]int64{},
 		KnownHits: map[string]*Violation{}, KnownOpen: map[string]bool{}, labelCount: map[string]int{},
